@@ -9,7 +9,7 @@ import collections
 import importlib
 import re
 
-PROP_GROUPS = {'C04': ['driver'], 'C15': ['fields'], 'C01': ['flow'], 'C07': ['flow'], 'C11': ['join'], 'C02': ['join'], 'C10': ['matcher'], 'C14': ['handlers', 'vloop'], 'C17': ['rows'], 'C13': ['load']}
+PROP_GROUPS = {'C04': ['driver'], 'C15': ['fields'], 'C01': ['flow'], 'C07': ['flow', 'ejson'], 'C11': ['join'], 'C02': ['join'], 'C10': ['matcher'], 'C14': ['handlers', 'vloop'], 'C17': ['rows'], 'C13': ['load']}
 
 
 # ---------------------------------------------------------------- encoding
@@ -101,7 +101,8 @@ def sort_list(c):
 
 
 # the order in which a Python set is enumerated is unspecified: `list(<set>)` is compared as a sorted list
-post_model = {'agg_set_finaliser': sort_list}
+post_model = {'agg_set_finaliser': sort_list,
+              'ejson_default': lambda c: [c[0], [c[1][0], ['list'] + sorted(c[1][1][1:], key=repr)]] if isinstance(c, list) and c and c[0] == 'dict' and len(c) > 1 and c[1][0] == ['str', 'type{set}'] else c}
 
 
 class Batch:
@@ -424,6 +425,70 @@ def run_fields(ctx, b, n):
     b.flush()
 
 
+def run_ejson(ctx, b, n):
+    """`CommonJSONEncoder.default`: the real method on one value of every kind against the translated dispatch, the type tests
+    and leaf conversions of that value as tables"""
+    import datetime
+    import decimal
+    import isodate
+    EJ = importlib.import_module('dataflows.helpers.extended_json')
+    rng = ctx.rng('pycorr-ejson')
+    enc = EJ.CommonJSONEncoder()
+    fmts = [EJ.TIME_F_FORMAT, EJ.DATETIME_F_FORMAT, EJ.DATE_F_FORMAT]
+
+    def cj(x):
+        if isinstance(x, float):
+            return ['o', 'float', repr(x)]
+        if isinstance(x, tuple):
+            return ['tuple'] + [cj(e) for e in x]
+        if isinstance(x, list):
+            return ['list'] + [cj(e) for e in x]
+        if isinstance(x, dict):
+            return ['dict'] + [[cj(k), cj(v)] for k, v in x.items()]
+        return canon_py(x)
+    tzs = [None, datetime.timezone.utc, datetime.timezone(datetime.timedelta(hours=-5, minutes=-30), 'X'),
+           datetime.timezone(datetime.timedelta(seconds=3600))]
+    for i in range(n):
+        kind = ['decimal', 'time', 'datetime', 'date', 'timedelta', 'duration', 'set', 'other', 'other-int'][i % 9]
+        obj = {'decimal': lambda: decimal.Decimal(rng.choice(['1.50', '-0', '1E+3', 'NaN'])),
+               'time': lambda: datetime.time(rng.randint(0, 23), rng.randint(0, 59), rng.randint(0, 59)),
+               'datetime': lambda: datetime.datetime(rng.randint(1, 9999), rng.randint(1, 12), rng.randint(1, 28), rng.randint(0, 23), 5, 6,
+                                                     tzinfo=rng.choice(tzs)),
+               'date': lambda: datetime.date(rng.randint(1, 9999), rng.randint(1, 12), rng.randint(1, 28)),
+               'timedelta': lambda: datetime.timedelta(days=rng.randint(-3, 3), seconds=rng.randint(0, 86399)),
+               'duration': lambda: isodate.Duration(years=rng.randint(0, 3), months=rng.randint(0, 11), days=rng.randint(0, 40)),
+               'set': lambda: set(rng.sample(range(10), rng.randint(0, 4))),
+               'other': lambda: object(), 'other-int': lambda: complex(1, 2)}[kind]()
+        try:
+            real = {'ok': cj(enc.default(obj))}
+        except TypeError:
+            real = {'err': 'user:TypeError'}
+        O = to_pv(obj) if kind == 'set' else opq('object', kind)
+        ext = [['isinstance:' + nm, [O], to_pv(isinstance(obj, cls))] for nm, cls in (
+            ('Decimal', decimal.Decimal), ('time', datetime.time), ('datetime', datetime.datetime), ('date', datetime.date),
+            ('Duration', isodate.Duration), ('timedelta', datetime.timedelta), ('set', set))]
+        ext.append(['str', [O], to_pv(str(obj))])
+        if hasattr(obj, 'strftime'):
+            for f in fmts:
+                ext.append(['.strftime', [O, to_pv(f)], to_pv(obj.strftime(f))])
+        if isinstance(obj, datetime.datetime):
+            off = obj.utcoffset()
+            ext.append(['.utcoffset', [O], to_pv(None) if off is None else opq('timedelta', repr(off))])
+            if off is not None:
+                ext.append(['.total_seconds', [opq('timedelta', repr(off))], opq('float', repr(off.total_seconds()))])
+            ext.append(['.tzname', [O], to_pv(obj.tzname())])
+        if isinstance(obj, (isodate.Duration, datetime.timedelta)):
+            ext.append(['isodate.duration_isoformat', [O], to_pv(isodate.duration_isoformat(obj))])
+        ext.append(['super', [], opq('super', '')])
+        ext.append(['.default', [opq('super', ''), O], {'raise': 'TypeError'}])
+        post = (lambda c: [c[0], [c[1][0], ['list'] + sorted(c[1][1][1:], key=repr)]] if c[0] == 'dict' and c[1][0] == ['str', 'type{set}'] else c)
+        if 'ok' in real:
+            real = {'ok': post(real['ok'])}
+        b.add_op({'op': 'pyeval', 'fn': 'ejson_default', 'mode': 'value', 'want_tag': True, 'ext': ext,
+                  'args': [opq('self', ''), O] + [to_pv(f) for f in fmts]}, 'ejson_default', real, post=lambda v: v, case=[kind, repr(obj)[:60]])
+    b.flush()
+
+
 def exc_pv(tag):
     return to_pv({'__exception__': tag, 'errors': []})
 
@@ -732,7 +797,7 @@ def run_flow(ctx, b, n):
     b.flush()
 
 
-RUNNERS = {'driver': run_driver, 'fields': run_fields, 'flow': run_flow, 'load': run_load, 'vloop': run_vloop, 'join': run_join, 'matcher': run_matcher, 'handlers': run_handlers, 'rows': run_rows}
+RUNNERS = {'ejson': run_ejson, 'driver': run_driver, 'fields': run_fields, 'flow': run_flow, 'load': run_load, 'vloop': run_vloop, 'join': run_join, 'matcher': run_matcher, 'handlers': run_handlers, 'rows': run_rows}
 
 
 def run(ctx, groups=None, n=None):
